@@ -262,3 +262,67 @@ def numeric_schemas(tier):
         else:
             s.msgs[1].block_length = val
         yield "num:%s=%d (header field is uint16)" % (where, val), s
+
+
+# ---- references spelled with a different letter case than the definition (sbeppc resolves type references
+# case-insensitively; file names, namespaces and tags come from the definition's spelling)
+def _refcase_base(package):
+    types = [Comp("MixedHeader", [T("blockLength", "uint16"), T("templateId", "uint16"), T("schemaId", "uint16"), T("version", "uint16")]),
+             std_group_dim(), std_var_data(),
+             T("MixedType", "uint16"), T("EncType", "uint8"),
+             Enum("MixedEnum", "EncType", [("Aa", 1), ("Bb", 2)]),
+             SetT("MixedSet", "EncType", [("c0", 0), ("c5", 5)]),
+             T("MixedConst", "uint8", presence="constant", value_ref="MixedEnum.Aa"),
+             Comp("MixedComp", [T("m1", "uint8"), Ref("rt", "MixedType"), Ref("re", "MixedEnum"), Ref("rc", "MixedConst")]),
+             Comp("MixedDim", [T("blockLength", "uint8"), T("numInGroup", "uint16")]),
+             Comp("MixedData", [T("length", "uint16"), T("varData", "uint8", length=0)])]
+    msgs = [Msg("mm", 1, [Field("f1", 1, "MixedType"), Field("f2", 2, "MixedEnum"), Field("f3", 3, "MixedSet"), Field("f4", 4, "MixedComp"),
+                          Field("f5", 5, "MixedEnum", presence="constant", value_ref="MixedEnum.Bb")],
+                [Group("g", 10, [Field("x", 11, "MixedType")], [], [Data("gd", 12, "MixedData")], dim="MixedDim")],
+                [Data("d", 20, "MixedData")])]
+    return Schema(package, types, msgs, id=3, version=0, header_type="MixedHeader")
+
+
+def _refcase_sites():
+    """(label, getter(schema) -> (object, attribute, which part))"""
+    def f(i):
+        return lambda s: s.msgs[0].fields[i]
+
+    def m(i):
+        return lambda s: s.type_by_name("MixedComp").members[i]
+
+    return [("field->type", f(0), "type"), ("field->enum", f(1), "type"), ("field->set", f(2), "type"), ("field->composite", f(3), "type"),
+            ("field.valueRef", f(4), "value_ref"), ("field(constant)->enum", f(4), "type"),
+            ("group.dimensionType", lambda s: s.msgs[0].groups[0], "dim"),
+            ("group-field->type", lambda s: s.msgs[0].groups[0].fields[0], "type"),
+            ("data(message)->composite", lambda s: s.msgs[0].data[0], "type"), ("data(group)->composite", lambda s: s.msgs[0].groups[0].data[0], "type"),
+            ("schema.headerType", lambda s: s, "header_type"),
+            ("ref->type", m(1), "type"), ("ref->enum", m(2), "type"), ("ref->constant-type", m(3), "type"),
+            ("enum.encodingType", lambda s: s.type_by_name("MixedEnum"), "enc"), ("set.encodingType", lambda s: s.type_by_name("MixedSet"), "enc"),
+            ("type.valueRef", lambda s: s.type_by_name("MixedConst"), "value_ref")]
+
+
+def _respell(v, how):
+    head, dot, tail = v.partition(".")      # for valueRef only the enum part is a type reference
+    head = {"upper": head.upper(), "lower": head.lower(), "swap": head.swapcase()}[how]
+    return head + dot + tail
+
+
+def refcase_schemas(tier):
+    hows = ("upper",) if tier == "quick" else ("upper", "lower", "swap")
+    k = 0
+    sites = _refcase_sites()
+    for how in hows:
+        for label, get, attr in sites:
+            k += 1
+            s = _refcase_base("rc%d" % k)
+            o = get(s)
+            setattr(o, attr, _respell(getattr(o, attr), how))
+            yield "refcase:%s:%s" % (label, how), s
+    for how in ("lower", "upper", "swap"):
+        k += 1
+        s = _refcase_base("rc%d" % k)
+        for label, get, attr in sites:
+            o = get(s)
+            setattr(o, attr, _respell(getattr(o, attr), how))
+        yield "refcase:all-sites:%s" % how, s
